@@ -131,20 +131,32 @@ inductive Err | incorrectInputCount | incompatibleShapes | incorrectRank | inval
 
 /-! ## `BinaryOp`: broadcasting shape rule -/
 
+def Sym.isOne : Sym → Bool
+  | .val n => n == 1
+  | _ => false
+
+/-- One dimension of `BinaryOp` (the match arms in source order; the literal-1 arms are tests). -/
 def bdim (a b : Sym) : Except Err Sym :=
-  if a.beq b then .ok a else
-  match a, b with
-  | .val 1, b => .ok b
-  | a, .val 1 => .ok a
-  | .val _, .val _ => .error .incompatibleShapes
-  | .var _ _, .val b => .ok (.val b)
-  | .val a, .var _ _ => .ok (.val a)
-  | a, b => .ok (.bcast a b)
+  if a.beq b then .ok a
+  else if a.isOne then .ok b
+  else if b.isOne then .ok a
+  else
+    match a, b with
+    | .val _, .val _ => .error .incompatibleShapes
+    | .var _ _, .val n => .ok (.val n)
+    | .val n, .var _ _ => .ok (.val n)
+    | a, b => .ok (.bcast a b)
 
 def padLeft (n : Nat) (ds : List Sym) : List Sym := List.replicate (n - ds.length) (.val 1) ++ ds
 
 def bdims : List Sym → List Sym → Except Err (List Sym)
-  | a :: as, b :: bs => do let d ← bdim a b; let r ← bdims as bs; pure (d :: r)
+  | a :: as, b :: bs =>
+    match bdim a b with
+    | .error e => .error e
+    | .ok d =>
+      match bdims as bs with
+      | .error e => .error e
+      | .ok r => .ok (d :: r)
   | _, _ => .ok []
 
 def binaryShape (a b : STn) : Except Err STn :=
@@ -195,10 +207,16 @@ def eqOp (x y : Sym) : Option Sym :=
 
 /-! ## `Where` -/
 
-def cycleTake {α} (n : Nat) (l : List α) : List α :=
-  match l with
-  | [] => []
-  | _ => (List.range n).filterMap fun i => l[i % l.length]?
+/-- `iter().cycle().take(n)`, structurally: `cur` is what is left of the current pass over `orig`. -/
+def cycAux {α : Type} : Nat → List α → List α → List α
+  | 0, _, _ => []
+  | n + 1, orig, [] =>
+    match orig with
+    | [] => []
+    | o :: os => o :: cycAux n orig os
+  | n + 1, orig, c :: cs => c :: cycAux n orig cs
+
+def cycleTake {α : Type} (n : Nat) (l : List α) : List α := cycAux n l l
 
 /-- One element of `Where`: only a constant condition is decided. -/
 def whereElem (truthy : Int → Bool) (c x y : Sym) : Option Sym :=
@@ -213,6 +231,10 @@ def whereVals (truthy : Int → Bool) (c x y : List Sym) : Option (List Sym) :=
   mapO (fun (t : Sym × Sym × Sym) => whereElem truthy t.1 t.2.1 t.2.2)
     (List.zip (cycleTake n c) (List.zip (cycleTake n x) (cycleTake n y)))
 
+def STn.isScalar : STn → Bool
+  | .scalar _ => true
+  | _ => false
+
 /-- `allScalarFix`: the fixed code returns a scalar when all three inputs are scalars. -/
 def whereInfer (truthy : Int → Bool) (allScalarFix : Bool) (c x y : STn) : Except Err STn :=
   let valued : Option STn :=
@@ -220,9 +242,11 @@ def whereInfer (truthy : Int → Bool) (allScalarFix : Bool) (c x y : STn) : Exc
     | some cv, some xv, some yv =>
       match whereVals truthy cv xv yv with
       | some vs =>
-        match allScalarFix, c, x, y, vs with
-        | true, .scalar _, .scalar _, .scalar _, [v] => some (.scalar v)
-        | _, _, _, _, _ => some (.vector vs)
+        if allScalarFix && c.isScalar && x.isScalar && y.isScalar then
+          match vs with
+          | [v] => some (.scalar v)
+          | _ => some (.vector vs)
+        else some (.vector vs)
       | none => none
     | _, _, _ => none
   match valued with
@@ -257,19 +281,20 @@ def resolveIndex (len : Nat) (i : Int) : Option Nat :=
   let n : Int := len
   if i < -n || i ≥ n then none else some (if i ≥ 0 then i.toNat else (n + i).toNat)
 
+/-- `get` of `Gather`: resolve a possibly negative index against the vector. -/
+def gatherGet (vals : List Sym) (i : Int) : Option Sym :=
+  (resolveIndex vals.length i).bind fun k => vals[k]?
+
 /-- `Gather` restricted to a valued input and constant indices (axis must resolve against rank ≤ 1). -/
 def gatherValues (vals : List Sym) (isScalarIdx : Bool) (idxs : List Int) : Except Err STn :=
-  let get (i : Int) : Except Err Sym :=
-    match resolveIndex vals.length i with
-    | some k => match vals[k]? with | some v => .ok v | none => .error .invalidValue
-    | none => .error .invalidValue
   if isScalarIdx then
     match idxs with
-    | [i] => (get i).map STn.scalar
+    | [i] => (match gatherGet vals i with | some v => .ok (.scalar v) | none => .error .invalidValue)
     | _ => .error .invalidValue
-  else (match mapO (fun i => (get i).toOption) idxs with
-        | some vs => .ok (STn.vector vs)
-        | none => .error .invalidValue)
+  else
+    match mapO (gatherGet vals) idxs with
+    | some vs => .ok (.vector vs)
+    | none => .error .invalidValue
 
 /-- `Concat` with axis 0 when every input has values. -/
 def concatValues (inputs : List STn) : Option STn :=
